@@ -71,7 +71,14 @@ ZansNo == 8
 TsobjNo == 9
 
 Cell(f, fib, p) == Code(f, fib, 0, p)                    \* HDU-independent identity of a pixel
-AtHdu(cell, h) == IF cell = 0 THEN 0 ELSE cell + 100 * h
+(* the value stored at HDU h for a pixel: on a wide file the four real-valued images hold   *)
+(* odd numbers above 2^24 (they need float64, the file stores them so; a narrow file's fit  *)
+(* float32), the two masks are integers everywhere (int32 / unsigned 32-bit on wide files). *)
+RealHdus == {0, 1, 4, 6}
+AtHdu(cell, h) == IF cell = 0 THEN 0
+                  ELSE IF Tree[cell \div 1000000].wide /\ h \in RealHdus THEN 16777217 + 2 * (cell + 100 * h)
+                  ELSE cell + 100 * h
+ImgVal(f, fib, h, p) == AtHdu(Cell(f, fib, p), h)
 Loglam(f, p) == Tree[f].c0 + Tree[f].c1 * p              \* units of 2^-10
 
 StrW(g, f, fib, h, x) == Tree[g].word \o ToString(Code(f, fib, h, x))   \* string cell: word of file g, identity of the cell
@@ -97,7 +104,7 @@ Columns(RowOp(_, _), rows) ==
 AllRows(f) == [k \in 1..Tree[f].nfib |-> <<f, k>>]
 FileContents(f) ==
   [meta |-> Tree[f], file |-> f, layout |-> HduLayout,
-   images |-> [h \in Images |-> [k \in 1..Tree[f].nfib |-> [q \in 1..Tree[f].npix |-> Code(f, k, HduNo[h], q - 1)]]],
+   images |-> [h \in Images |-> [k \in 1..Tree[f].nfib |-> [q \in 1..Tree[f].npix |-> ImgVal(f, k, HduNo[h], q - 1)]]],
    plugmap |-> Columns(PlugRow, AllRows(f)),
    zans |-> Columns(ZansRow, AllRows(f)),
    tsobj |-> IF HasPhoto THEN Columns(TsobjRow, AllRows(f)) ELSE <<>>]
@@ -114,6 +121,12 @@ Locs == {"env", "topdir", "run2d", "run1d", "path", "bare"}
 (* scalar) is not an input of Requests / Specified / SpecAppend: the outcome depends on    *)
 (* the values only (law MemIndependent; the harness rotates the layouts over the cases).   *)
 Mems == {"plain", "readonly", "strided", "swapped", "zerod"}
+(* Likewise the numeric TYPE in which integral values are handed over (Python int, numpy   *)
+(* scalar, 0-d or n-d array of any signed / unsigned width that holds them) is not an input *)
+(* of the specification: same values, same outcome.  For spec_append this includes blocks  *)
+(* of different types: the result holds the VALUES of both blocks (SpecAppend is over      *)
+(* values), so it must be of a type that can hold them.                                     *)
+Nums == {"int", "int8", "uint8", "int16", "uint16", "int32", "uint32", "int64", "uint64", "float32", "float64"}
 Pick(s, i) == IF Len(s) = 1 THEN s[1] ELSE s[i]
 RECURSIVE Concat(_)
 Concat(ss) == IF ss = <<>> THEN <<>> ELSE Head(ss) \o Concat(Tail(ss))
@@ -133,7 +146,7 @@ Requests(c) ==
           [fib \in 1..Tree[FileOf(c.p[k], MjdAt(c, k))].nfib |-> [plate |-> c.p[k], mjd |-> MjdAt(c, k), fib |-> fib]]])
   ELSE [i \in 1..Max2(Len(c.p), Len(c.f)) |-> [plate |-> Pick(c.p, i), mjd |-> MjdAt(c, i), fib |-> Pick(c.f, i)]]
 
-MemIndependent(c) == \A mm \in Mems : Requests([c EXCEPT !.mem = mm]) = Requests(c)
+MemIndependent(c) == \A mm \in Mems : \A nn \in Nums : Requests([c EXCEPT !.mem = mm, !.num = nn]) = Requests(c)
 FileAt(req, i) == FileOf(req[i].plate, req[i].mjd)
 RowsOf(req) == [i \in DOMAIN req |-> <<FileAt(req, i), req[i].fib>>]
 RequestOK(req) == \A i \in DOMAIN req :
@@ -173,12 +186,15 @@ Rect(m, n, w) == Len(m) = n /\ \A i \in DOMAIN m : Len(m[i]) = w
 RowIdentity(req, d) ==
   LET rows == RowsOf(req) IN
   /\ \A h \in Images : Len(d[h]) = Len(req)
-  /\ \A h \in Images : \A i \in DOMAIN req : \A q \in 1..Tree[rows[i][1]].npix :
-        (d[h][i][q] - Code(rows[i][1], req[i].fib, HduNo[h], 0)) \in 0..98       \* some pixel of that row
+  /\ \A h \in Images : \A i \in DOMAIN req :
+        LET base == ImgVal(rows[i][1], req[i].fib, HduNo[h], 0)
+            step == ImgVal(rows[i][1], req[i].fib, HduNo[h], 1) - base
+        IN \A q \in 1..Tree[rows[i][1]].npix :                                      \* some pixel of that row
+              (d[h][i][q] - base) % step = 0 /\ ((d[h][i][q] - base) \div step) \in 0..98
 NoShift(req, d) ==
   LET rows == RowsOf(req) IN
   \A h \in Images : \A i \in DOMAIN req : \A q \in 1..Tree[rows[i][1]].npix :
-        d[h][i][q] = Code(rows[i][1], req[i].fib, HduNo[h], q - 1)
+        d[h][i][q] = ImgVal(rows[i][1], req[i].fib, HduNo[h], q - 1)
 ZeroPadRight(req, d) ==
   LET rows == RowsOf(req)
       w == WidthOf(rows) IN
@@ -274,6 +290,10 @@ Dev_BossAllFibres(c) == Len(c.f) = 0 /\ \E k \in DOMAIN c.p : Latest(c.p[k]) >= 
 (* D-C16-4: without a photoPlate file next to the spPlate file the undocumented variables *)
 (*          SPECTRO_MATCH / PHOTO_RESOLVE are read unconditionally: KeyError.             *)
 Dev_PhotoEnvRequired(c) == c.loc = "bare" /\ ~HasPhoto
+(* D-C16-5: spec_append allocates the result with the type of the FIRST block, so values of *)
+(*          the second block that type cannot hold are wrapped / rounded (t1, t2 = numeric   *)
+(*          types of the blocks; holds2 = the first type can hold the second block's values) *)
+Dev_AppendKeepsFirstType(t1, t2, holds2) == t1 # t2 /\ ~holds2
 
 IsPermutation(idx, n) == Len(idx) = n /\ {idx[k] : k \in DOMAIN idx} = 1..n
 Injective(idx) == Cardinality({idx[k] : k \in DOMAIN idx}) = Len(idx)
